@@ -1,5 +1,7 @@
 package main
 
+import "regexp"
+
 // Reference tables for E18 (enum maps). Sources: SPIR-V 1.6 unified
 // specification (BuiltIn, StorageClass, ExecutionModel/Mode, Decoration,
 // Capability, Image Format), "Semantics" (HLSL reference, Direct3D 10+ system
@@ -16,6 +18,7 @@ type enumTable struct {
 	Rule      string
 	Pkg       string // package prefix
 	Enum      string
+	Sum       bool   // Enum is a sum type of package ir (type switch over its variants) instead of a constant enum
 	VocabType string // all constants of this Go type (declared under Pkg) join the vocabulary
 	Ref       enumRef
 	SkipFuncs map[string]string // function id -> reason (arm words there have another meaning)
@@ -220,6 +223,101 @@ var enumTables = []enumTable{
 		"StorageFormatRgba16Unorm": {"rgba16"}, "StorageFormatRgba16Snorm": {"rgba16_snorm"},
 		"StorageFormatRgb10a2Unorm": {"rgb10_a2"}, "StorageFormatRgb10a2Uint": {"rgb10_a2ui"}, "StorageFormatRg11b10Ufloat": {"r11f_g11f_b10f"}, "StorageFormatBgra8Unorm": {"rgba8"},
 	}},
+	// ---- atomics, relational, derivatives (semantic vocabulary of C01, C03-C05) ---
+	{Rule: "enummap.spirv.atomic", Pkg: "spirv", Enum: "AtomicFunction", Sum: true, Ref: enumRef{
+		"AtomicAdd": {"OpAtomicIAdd", "OpAtomicFAddEXT"}, "AtomicSubtract": {"OpAtomicISub"}, "AtomicAnd": {"OpAtomicAnd"}, "AtomicInclusiveOr": {"OpAtomicOr"}, "AtomicExclusiveOr": {"OpAtomicXor"},
+		"AtomicMin": {"OpAtomicSMin", "OpAtomicUMin", "OpAtomicFMinEXT"}, "AtomicMax": {"OpAtomicSMax", "OpAtomicUMax", "OpAtomicFMaxEXT"},
+		"AtomicExchange": {"OpAtomicExchange", "OpAtomicCompareExchange"}, "AtomicLoad": {"OpAtomicLoad"}, "AtomicStore": {"OpAtomicStore"},
+		"_": {"OpAtomicIIncrement", "OpAtomicIDecrement", "OpAtomicCompareExchangeWeak"},
+	}},
+	{Rule: "enummap.hlsl.atomic", Pkg: "hlsl", Enum: "AtomicFunction", Sum: true, Ref: enumRef{
+		// HLSL has no InterlockedSub: subtraction is InterlockedAdd of the negated value
+		"AtomicAdd": {"InterlockedAdd", "Add"}, "AtomicSubtract": {"InterlockedAdd", "Add"}, "AtomicAnd": {"InterlockedAnd", "And"}, "AtomicInclusiveOr": {"InterlockedOr", "Or"},
+		"AtomicExclusiveOr": {"InterlockedXor", "Xor"}, "AtomicMin": {"InterlockedMin", "Min"}, "AtomicMax": {"InterlockedMax", "Max"},
+		"AtomicExchange": {"InterlockedExchange", "InterlockedCompareExchange", "Exchange", "CompareExchange"},
+	}},
+	{Rule: "enummap.msl.atomic", Pkg: "msl", Enum: "AtomicFunction", Sum: true, Ref: enumRef{
+		"AtomicAdd": {"atomic_fetch_add_explicit", "fetch_add"}, "AtomicSubtract": {"atomic_fetch_sub_explicit", "fetch_sub"}, "AtomicAnd": {"atomic_fetch_and_explicit", "fetch_and"},
+		"AtomicInclusiveOr": {"atomic_fetch_or_explicit", "fetch_or"}, "AtomicExclusiveOr": {"atomic_fetch_xor_explicit", "fetch_xor"},
+		"AtomicMin": {"atomic_fetch_min_explicit", "atomic_min_explicit", "fetch_min", "min"}, "AtomicMax": {"atomic_fetch_max_explicit", "atomic_max_explicit", "fetch_max", "max"},
+		"AtomicExchange": {"atomic_exchange_explicit", "atomic_compare_exchange_weak_explicit", "exchange"}, "AtomicLoad": {"atomic_load_explicit"}, "AtomicStore": {"atomic_store_explicit"},
+	}},
+	{Rule: "enummap.glsl.atomic", Pkg: "glsl", Enum: "AtomicFunction", Sum: true, Ref: enumRef{
+		// GLSL has no atomicSub: subtraction is atomicAdd of the negated value
+		"AtomicAdd": {"atomicAdd", "Add"}, "AtomicSubtract": {"atomicAdd", "Add"}, "AtomicAnd": {"atomicAnd", "And"}, "AtomicInclusiveOr": {"atomicOr", "Or"}, "AtomicExclusiveOr": {"atomicXor", "Xor"},
+		"AtomicMin": {"atomicMin", "Min"}, "AtomicMax": {"atomicMax", "Max"}, "AtomicExchange": {"atomicExchange", "atomicCompSwap", "Exchange", "CompSwap"},
+	}},
+	{Rule: "enummap.hlsl.relational", Pkg: "hlsl", Enum: "RelationalFunction", Ref: enumRef{"RelationalAll": {"all"}, "RelationalAny": {"any"}, "RelationalIsNan": {"isnan"}, "RelationalIsInf": {"isinf"}}},
+	{Rule: "enummap.msl.relational", Pkg: "msl", Enum: "RelationalFunction", Ref: enumRef{"RelationalAll": {"all"}, "RelationalAny": {"any"}, "RelationalIsNan": {"isnan"}, "RelationalIsInf": {"isinf"}}},
+	{Rule: "enummap.glsl.relational", Pkg: "glsl", Enum: "RelationalFunction", Ref: enumRef{"RelationalAll": {"all"}, "RelationalAny": {"any"}, "RelationalIsNan": {"isnan"}, "RelationalIsInf": {"isinf"}}},
+	{Rule: "enummap.spirv.derivaxis", Pkg: "spirv", Enum: "DerivativeAxis", Ref: enumRef{
+		"DerivativeX": {"OpDPdx", "OpDPdxCoarse", "OpDPdxFine"}, "DerivativeY": {"OpDPdy", "OpDPdyCoarse", "OpDPdyFine"}, "DerivativeWidth": {"OpFwidth", "OpFwidthCoarse", "OpFwidthFine"}}},
+	{Rule: "enummap.spirv.derivctrl", Pkg: "spirv", Enum: "DerivativeControl", Ref: enumRef{
+		"DerivativeCoarse": {"OpDPdxCoarse", "OpDPdyCoarse", "OpFwidthCoarse"}, "DerivativeFine": {"OpDPdxFine", "OpDPdyFine", "OpFwidthFine"}, "DerivativeNone": {"OpDPdx", "OpDPdy", "OpFwidth"}}},
+	{Rule: "enummap.hlsl.derivaxis", Pkg: "hlsl", Enum: "DerivativeAxis", Ref: enumRef{
+		"DerivativeX": {"ddx", "ddx_coarse", "ddx_fine"}, "DerivativeY": {"ddy", "ddy_coarse", "ddy_fine"}, "DerivativeWidth": {"fwidth"}}},
+	{Rule: "enummap.hlsl.derivctrl", Pkg: "hlsl", Enum: "DerivativeControl", Ref: enumRef{
+		"DerivativeCoarse": {"ddx_coarse", "ddy_coarse"}, "DerivativeFine": {"ddx_fine", "ddy_fine"}, "DerivativeNone": {"ddx", "ddy", "fwidth"}}},
+	{Rule: "enummap.msl.derivaxis", Pkg: "msl", Enum: "DerivativeAxis", Ref: enumRef{"DerivativeX": {"dfdx"}, "DerivativeY": {"dfdy"}, "DerivativeWidth": {"fwidth"}}},
+	{Rule: "enummap.glsl.derivaxis", Pkg: "glsl", Enum: "DerivativeAxis", Ref: enumRef{
+		"DerivativeX": {"dFdx", "dFdxCoarse", "dFdxFine"}, "DerivativeY": {"dFdy", "dFdyCoarse", "dFdyFine"}, "DerivativeWidth": {"fwidth", "fwidthCoarse", "fwidthFine"}}},
+	{Rule: "enummap.glsl.derivctrl", Pkg: "glsl", Enum: "DerivativeControl", Ref: enumRef{
+		"DerivativeCoarse": {"dFdxCoarse", "dFdyCoarse", "fwidthCoarse"}, "DerivativeFine": {"dFdxFine", "dFdyFine", "fwidthFine"}, "DerivativeNone": {"dFdx", "dFdy", "fwidth"}}},
+	// ---- subgroup operations -------------------------------------------------
+	{Rule: "enummap.spirv.subgroup", Pkg: "spirv", Enum: "SubgroupOperation", Ref: enumRef{
+		"SubgroupOperationAll": {"OpGroupNonUniformAll", "CapabilityGroupNonUniformVote"}, "SubgroupOperationAny": {"OpGroupNonUniformAny", "CapabilityGroupNonUniformVote"},
+		"SubgroupOperationAdd": {"OpGroupNonUniformIAdd", "OpGroupNonUniformFAdd", "CapabilityGroupNonUniformArithmetic"}, "SubgroupOperationMul": {"OpGroupNonUniformIMul", "OpGroupNonUniformFMul", "CapabilityGroupNonUniformArithmetic"},
+		"SubgroupOperationMin": {"OpGroupNonUniformSMin", "OpGroupNonUniformUMin", "OpGroupNonUniformFMin", "CapabilityGroupNonUniformArithmetic"},
+		"SubgroupOperationMax": {"OpGroupNonUniformSMax", "OpGroupNonUniformUMax", "OpGroupNonUniformFMax", "CapabilityGroupNonUniformArithmetic"},
+		"SubgroupOperationAnd": {"OpGroupNonUniformBitwiseAnd", "OpGroupNonUniformLogicalAnd", "CapabilityGroupNonUniformArithmetic"},
+		"SubgroupOperationOr":  {"OpGroupNonUniformBitwiseOr", "OpGroupNonUniformLogicalOr", "CapabilityGroupNonUniformArithmetic"},
+		"SubgroupOperationXor": {"OpGroupNonUniformBitwiseXor", "OpGroupNonUniformLogicalXor", "CapabilityGroupNonUniformArithmetic"},
+		"_": {"CapabilityGroupNonUniformBallot", "CapabilityGroupNonUniformShuffle", "CapabilityGroupNonUniformShuffleRelative", "CapabilityGroupNonUniformQuad", "CapabilityGroupNonUniformClustered"},
+	}},
+	{Rule: "enummap.spirv.gather", Pkg: "spirv", Enum: "GatherMode", Sum: true, Ref: enumRef{
+		"GatherBroadcastFirst": {"OpGroupNonUniformBroadcastFirst", "CapabilityGroupNonUniformBallot"}, "GatherBroadcast": {"OpGroupNonUniformBroadcast", "CapabilityGroupNonUniformBallot"},
+		"GatherShuffle": {"OpGroupNonUniformShuffle", "CapabilityGroupNonUniformShuffle"}, "GatherShuffleXor": {"OpGroupNonUniformShuffleXor", "CapabilityGroupNonUniformShuffle"},
+		"GatherShuffleDown": {"OpGroupNonUniformShuffleDown", "CapabilityGroupNonUniformShuffleRel", "CapabilityGroupNonUniformShuffleRelative"}, "GatherShuffleUp": {"OpGroupNonUniformShuffleUp", "CapabilityGroupNonUniformShuffleRel", "CapabilityGroupNonUniformShuffleRelative"},
+		"GatherQuadBroadcast": {"OpGroupNonUniformQuadBroadcast", "CapabilityGroupNonUniformQuad"}, "GatherQuadSwap": {"OpGroupNonUniformQuadSwap", "CapabilityGroupNonUniformQuad"},
+		"_": {"CapabilityGroupNonUniformVote", "CapabilityGroupNonUniformArithmetic"},
+	}},
+	{Rule: "enummap.msl.subgroup", Pkg: "msl", Enum: "SubgroupOperation", Ref: enumRef{
+		"SubgroupOperationAll": {"simd_all"}, "SubgroupOperationAny": {"simd_any"}, "SubgroupOperationAdd": {"simd_sum", "simd_prefix_exclusive_sum", "simd_prefix_inclusive_sum"},
+		"SubgroupOperationMul": {"simd_product", "simd_prefix_exclusive_product", "simd_prefix_inclusive_product"}, "SubgroupOperationMin": {"simd_min"}, "SubgroupOperationMax": {"simd_max"},
+		"SubgroupOperationAnd": {"simd_and"}, "SubgroupOperationOr": {"simd_or"}, "SubgroupOperationXor": {"simd_xor"},
+	}},
+	{Rule: "enummap.msl.collective", Pkg: "msl", Enum: "CollectiveOperation", Ref: enumRef{
+		"CollectiveReduce": {"simd_sum", "simd_product"}, "CollectiveExclusiveScan": {"simd_prefix_exclusive_sum", "simd_prefix_exclusive_product"},
+		"CollectiveInclusiveScan": {"simd_prefix_inclusive_sum", "simd_prefix_inclusive_product"},
+	}},
+	{Rule: "enummap.msl.gather", Pkg: "msl", Enum: "GatherMode", Sum: true, Ref: enumRef{
+		"GatherBroadcastFirst": {"simd_broadcast_first", "ssimd_broadcast_first"}, "GatherBroadcast": {"simd_broadcast", "ssimd_broadcast"}, "GatherShuffle": {"simd_shuffle", "ssimd_shuffle"},
+		"GatherShuffleDown": {"simd_shuffle_down", "ssimd_shuffle_down"}, "GatherShuffleUp": {"simd_shuffle_up", "ssimd_shuffle_up"}, "GatherShuffleXor": {"simd_shuffle_xor", "ssimd_shuffle_xor"},
+		"GatherQuadBroadcast": {"quad_broadcast", "squad_broadcast"}, "GatherQuadSwap": {"quad_shuffle_xor", "squad_shuffle_xor"},
+	}},
+	{Rule: "enummap.glsl.subgroup", Pkg: "glsl", Enum: "SubgroupOperation", Ref: enumRef{
+		"SubgroupOperationAll": {"subgroupAll"}, "SubgroupOperationAny": {"subgroupAny"}, "SubgroupOperationAdd": {"subgroupAdd", "subgroupExclusiveAdd", "subgroupInclusiveAdd"},
+		"SubgroupOperationMul": {"subgroupMul", "subgroupExclusiveMul", "subgroupInclusiveMul"}, "SubgroupOperationMin": {"subgroupMin"}, "SubgroupOperationMax": {"subgroupMax"},
+		"SubgroupOperationAnd": {"subgroupAnd"}, "SubgroupOperationOr": {"subgroupOr"}, "SubgroupOperationXor": {"subgroupXor"},
+	}},
+	{Rule: "enummap.glsl.collective", Pkg: "glsl", Enum: "CollectiveOperation", Ref: enumRef{
+		"CollectiveReduce": {"subgroupAdd", "subgroupMul", "subgroupMin", "subgroupMax", "subgroupAnd", "subgroupOr", "subgroupXor", "subgroupAll", "subgroupAny"},
+		"CollectiveExclusiveScan": {"subgroupExclusiveAdd", "subgroupExclusiveMul"}, "CollectiveInclusiveScan": {"subgroupInclusiveAdd", "subgroupInclusiveMul"},
+	}},
+	{Rule: "enummap.glsl.gather", Pkg: "glsl", Enum: "GatherMode", Sum: true, Ref: enumRef{
+		"GatherBroadcastFirst": {"subgroupBroadcastFirst"}, "GatherBroadcast": {"subgroupBroadcast"}, "GatherShuffle": {"subgroupShuffle"}, "GatherShuffleDown": {"subgroupShuffleDown"},
+		"GatherShuffleUp": {"subgroupShuffleUp"}, "GatherShuffleXor": {"subgroupShuffleXor"}, "GatherQuadBroadcast": {"subgroupQuadBroadcast"},
+		"GatherQuadSwap": {"subgroupQuadSwapHorizontal", "subgroupQuadSwapVertical", "subgroupQuadSwapDiagonal"},
+	}},
+	{Rule: "enummap.hlsl.subgroup", Pkg: "hlsl", Enum: "SubgroupOperation", Ref: enumRef{
+		"SubgroupOperationAll": {"WaveActiveAllTrue"}, "SubgroupOperationAny": {"WaveActiveAnyTrue"}, "SubgroupOperationAdd": {"WaveActiveSum", "WavePrefixSum"}, "SubgroupOperationMul": {"WaveActiveProduct", "WavePrefixProduct"},
+		"SubgroupOperationMin": {"WaveActiveMin"}, "SubgroupOperationMax": {"WaveActiveMax"}, "SubgroupOperationAnd": {"WaveActiveBitAnd"}, "SubgroupOperationOr": {"WaveActiveBitOr"}, "SubgroupOperationXor": {"WaveActiveBitXor"},
+	}},
+	{Rule: "enummap.hlsl.gather", Pkg: "hlsl", Enum: "GatherMode", Sum: true, Ref: enumRef{
+		"GatherBroadcastFirst": {"WaveReadLaneFirst"}, "GatherBroadcast": {"WaveReadLaneAt"}, "GatherShuffle": {"WaveReadLaneAt"}, "GatherShuffleDown": {"WaveReadLaneAt", "WaveGetLaneIndex"},
+		"GatherShuffleUp": {"WaveReadLaneAt", "WaveGetLaneIndex"}, "GatherShuffleXor": {"WaveReadLaneAt", "WaveGetLaneIndex"}, "GatherQuadBroadcast": {"QuadReadLaneAt"},
+		"GatherQuadSwap": {"QuadReadAcrossX", "QuadReadAcrossY", "QuadReadAcrossDiagonal"},
+	}},
 	// ---- DXIL (signature / PSV parts) -----------------------------------------
 	{Rule: "enummap.dxil.semantic", Pkg: "dxil", Enum: "BuiltinValue", Ref: hlslSemantics},
 	{Rule: "enummap.dxil.stage", Pkg: "dxil", Enum: "ShaderStage", Ref: enumRef{
@@ -235,8 +333,22 @@ var enumTables = []enumTable{
 	}},
 }
 
+// interfaceTables: the tables that concern bindings and stage interfaces (C17)
+var interfaceTableRe = regexp.MustCompile(`\.(builtin|builtincap|stage|execmode|space|interp|sampling|regtype|format|semantic)$`)
+
+func (c *Ctx) runInterfaceEnumTables(r *Report, pkgPrefixes ...string) {
+	c.runEnumTablesFiltered(r, func(rule string) bool { return interfaceTableRe.MatchString(rule) }, pkgPrefixes...)
+}
+
 func (c *Ctx) runEnumTables(r *Report, pkgPrefixes ...string) {
+	c.runEnumTablesFiltered(r, nil, pkgPrefixes...)
+}
+
+func (c *Ctx) runEnumTablesFiltered(r *Report, keep func(string) bool, pkgPrefixes ...string) {
 	for _, t := range enumTables {
+		if keep != nil && !keep(t.Rule) {
+			continue
+		}
 		use := false
 		for _, p := range pkgPrefixes {
 			if p == t.Pkg {
